@@ -146,6 +146,9 @@ type RefNoisePolicy struct {
 	Rng       *rand.Rand
 	Sess      *gen.Session
 	CheckRate float64
+	// Held: transactions the clients emitted that the driver keeps out of the blocks (one in ten): they sit in the
+	// mempool, are validated there - by a node on which they would succeed - and are never delivered
+	Held [][]byte
 }
 
 func (p *RefNoisePolicy) Decide(e *core.Engine, r *core.Replica, s core.Site) (checks [][]byte, crash bool) {
@@ -157,6 +160,14 @@ func (p *RefNoisePolicy) Decide(e *core.Engine, r *core.Replica, s core.Site) (c
 	}
 	pool := p.Sess.Sent
 	for i, n := 0, 1+p.Rng.Intn(3); i < n; i++ {
+		if len(p.Held) > 0 && p.Rng.Intn(2) == 0 {
+			lo := 0
+			if len(p.Held) > 12 {
+				lo = len(p.Held) - 12
+			}
+			checks = append(checks, p.Held[lo+p.Rng.Intn(len(p.Held)-lo)])
+			continue
+		}
 		lo := 0
 		if len(pool) > 24 && p.Rng.Intn(4) != 0 {
 			lo = len(pool) - 24
